@@ -32,19 +32,20 @@ AS_TOWER = [
     "no u32 overflow in height + duration and expiry + grace (realistic configurations)",
     "requests reach the internal API through the HTTP front end (non-empty locator of 16 bytes, appointment present)",
     "sequential executions (concurrency is the subject of C10/C11)",
+    "history-level theorems quantify over histories that are valid in the sense of the stated predicates (OpValid / OpValidC / OpValidE: fresh block hashes and transaction ids, connection at tip + 1, disconnection of the tip no deeper than the index holds, heights >= 6 and < u32::MAX); C02's and C06's need no such predicate",
 ]
 
 def _tower(partial):
     return {"components": ["tower"], "trusted_base": TB_TOWER, "assumptions": AS_TOWER, "partial": partial}
 
-PROPS["C01"] = _tower("theorems are per breach (handle_breach, one loop iteration, add with cached dispute) plus the visiting lemma; the lifting to whole histories is by the correspondence run and the C01 monitors, not a single induction. `-27 already in chain` leaves the appointment watched (statement does not cover it). Late appointments after a reorg can miss the 6-block window (C19 deficit).")
+PROPS["C01"] = _tower("proved for every block and every reachable state: every held appointment whose locator matches a transaction of the connected block and whose blob decrypts has its penalty dealt with before the watcher finishes the block (both nested loops composed, aborts included); rows with other locators untouched. The outcome half (tracker with exactly that data / only that appointment dropped) is per loop iteration + monitors. `-27 already in chain` leaves the appointment watched without a tracker (known finding under C03). Late appointments after a reorg can miss the 6-block window (known finding, C19 deficit).")
 PROPS["C02"] = _tower("call sites of sendrawtransaction enumerated and each bounded by a theorem; the union over whole histories is a theorem too (ghost-record invariant GInv, Lemmas/TowerJust), and is re-checked by the C02 monitor on every RPC of every explored history of the real code.")
-PROPS["C04"] = _tower("per-tracker theorems for each of the four loops + block-level refund theorem; confirmed-in-active-chain over whole histories is monitored, not proved by one induction.")
-PROPS["C06"] = _tower("recover_pk is an input (the signer); the byte-exact request messages are recomputed by the harness independently of the tower's code.")
-PROPS["C07"] = _tower("conservation proved in differential form per primitive (sum form is recomputed by the monitor from the real tables after every operation); f32 formula proved exact below 2^24 and compared exhaustively with the real function.")
+PROPS["C04"] = _tower("per-tracker theorems for each of the four loops + block-level refund theorem; confirmed-only-in-the-active-chain is proved for every valid history against a ghost active chain (validity: block hashes and txids not repeated in the active chain, connection at tip+1, disconnection of the tip, reorgs no deeper than the 100 blocks the responder holds). Periodic re-submission and the 100-confirmation completion are per step + monitors.")
+PROPS["C06"] = _tower("recover_pk is an input (the signer); the byte-exact request messages are recomputed by the harness independently of the tower's code. History level: every appointment row of every reachable state was put there by an authenticated add_appointment of its owner; non-interference of whole histories (reads included) is per operation (FrameK) + monitors.")
+PROPS["C07"] = _tower("conservation proved in differential form per primitive, memory = disk for every history; the SUM form (granted = available + occupied + forfeited over a whole history) is not a theorem: it is recomputed by the monitor from the real tables after every operation. f32 formula proved exact below 2^24 and compared exhaustively with the real function.")
 PROPS["C07"]["components"] = ["tower", "slots"]
 PROPS["C08"] = _tower("signature scheme abstract here (C17); byte layouts in C16.")
-PROPS["C09"] = _tower("u32 wrap-around of the two unchecked additions excluded by precondition.")
+PROPS["C09"] = _tower("u32 wrap-around of the two unchecked additions excluded by precondition. History level (nobody outlives expiry + grace) needs duration + grace > 0, connected heights below u32::MAX and disconnections that do not raise the height.")
 
 PROPS["C20"] = {
     "components": ["config"],
@@ -86,7 +87,7 @@ PROPS["C03"] = {"components": ["crash"], "monitor_props": ["C03"], "trusted_base
         "sqlite's atomic commit and foreign-key enforcement are trusted (exercised on real files); a crash is modelled as 'a prefix of the committed writes survives'",
         "the simulated block source for the catch-up"],
     "assumptions": ["process death = unwinding at a crash point (no torn sqlite pages: sqlite's journal is trusted)"],
-    "partial": "integrity at every prefix, faithfulness of the write log, atomic refund, charge-before-store, last-known-block written last are theorems; replay of unfinished blocks giving the same result as the uninterrupted run is compared on the real code at every crash point of generated histories, not proved. Known finding: last known block recorded ahead of a partially delivered poll."}
+    "partial": "integrity at every prefix, faithfulness of the write log, atomic refund, charge-before-store, last-known-block written last are theorems; replay of unfinished blocks giving the same result as the uninterrupted run is compared on the real code at every crash point of generated histories, not proved. Known findings: last known block recorded ahead of a partially delivered poll; refund written before the shrunk row; a penalty sent, then confirmed while the tower is down, is not tracked after the restart."}
 
 TB_CLIENT = TB_COMMON + [
     "modelled, not verified: sqlite/rusqlite (primary keys, foreign keys with ON DELETE CASCADE as in the client schema, one transaction per DBM method = atomic), serde_json serialisation of the summaries",
@@ -106,11 +107,11 @@ PROPS["C05"] = {"components": ["plugin"], "monitor_props": ["C05"], "trusted_bas
     "assumptions": ["'notified' = the hook call has returned (a kill while the handler is still looping over the towers interrupts the notification itself)",
                     "crash points are transaction boundaries (sqlite's atomic commit is trusted); kills in the scenarios happen at stable points, the theorem never_lost covers every boundary",
                     "remove_pending_appointment is only called right after the receipt or the rejection of the same (tower, locator) was stored (its two call sites in Retrier::run)"],
-    "partial": "proved: recorded in AT LEAST one of accepted/pending/invalid at every transaction boundary of every guarded operation sequence (never_lost), and EXACTLY one at every stable point of every event history (exactly_one_at_stable_points: invariant Tidy kept by the handler, the retriers, the commands and the restart). Between the two writes of a move both records exist (example in Props/C05.lean); a kill exactly there would leave both in the file until the next start completes the move: not exhibited on the real binary, so not listed as a finding. The hold/release events of the correspondence run (a retrier blocked on a silent tower) are in the model but outside the event type the history theorems quantify over."}
+    "partial": "proved: recorded in AT LEAST one of accepted/pending/invalid at every transaction boundary of every guarded operation sequence (never_lost), and EXACTLY one at every stable point of every event history (exactly_one_at_stable_points: invariant Tidy kept by the handler, the retriers, the commands and the restart). Between the two writes of a move both records exist (example in Props/C05.lean); a kill exactly there would leave both in the file until the next start completes the move: not exhibited on the real binary, so not listed as a finding. The hold/release events (a retrier blocked on a silent tower) are events of the history theorems too; a hold with a one-shot reply queued in front of it is outside the model (the generator does not produce it)."}
 PROPS["C13"] = {"components": ["plugin"], "monitor_props": ["C13"], "trusted_base": TB_PLUGIN,
     "assumptions": ["tower behaviour is constant while a retrier runs (the scenarios change it only at stable points)",
                     "an idle retrier implies status unreachable (holds in every compared state after fix 4463be4; hypothesis of manual_retry_documented_states)"],
-    "partial": "proved for every event history: a tower shown reachable has nothing pending (listing and file), the pending listing is the file; delivery after recovery incl. after a subscription renewal; the manual-retry gate. Real-time clauses (delivery within the configured delays, request rate) are measured on the real binary with tolerances, not proved; 'at no time two retry loops for one tower' is structural in the model (one optional retrier per tower) and is not separately observable on the binary except through duplicate requests; the timed auto-retry scenarios are monitor-only (not compared with the stable-point model)."}
+    "partial": "proved for every event history: a tower shown reachable has nothing pending (listing and file), the pending listing is the file; delivery after recovery incl. after a subscription renewal; the manual-retry gate. Real-time clauses (delivery within the configured delays, request rate) are measured on the real binary with tolerances, not proved; 'at no time two retry loops for one tower' is a theorem of the small-step model of the retry manager (never_two_retry_loops, every interleaving of messages, manager iterations and task completions), tied to the source by the extracted call sites of tokio::spawn / start / set_status, not by a differential run of the manager alone; the timed auto-retry scenarios are monitor-only (not compared with the stable-point model)."}
 PROPS["C14"] = {"components": ["plugin"], "monitor_props": ["C14"], "trusted_base": TB_PLUGIN + [
         "signature verification and recovery are the abstract scheme of C17; replies reach the model already classified (wrong signer / unparsable / ...)"],
     "assumptions": ["the classification of a reply by net::http (process_post_response, send_appointment) is total and panic-free: checked on the real binary for every reply kind of the scenarios (monitor no_answer), not proved for all byte strings"],
